@@ -15,7 +15,7 @@ fi
 run_case() {
   d=$1
   name=$(basename "$d")
-  if [ -f "$d/expect" ]; then prop=$(sed -n 1p "$d/expect"); exp=$(sed -n 2p "$d/expect"); else prop=$(jq -r .property "$d/meta.json"); exp=$(jq -r '.expect // "fail ."' "$d/meta.json"); fi
+  if [ -f "$d/expect" ]; then prop=$(sed -n 1p "$d/expect"); exp=$(sed -n 2p "$d/expect"); else prop=$(jq -r '.check // .property' "$d/meta.json"); exp=$(jq -r '.expect // "fail ."' "$d/meta.json"); fi
   work=$(mktemp -d /tmp/govc-selftest-XXXXXX)
   rsync -a --exclude .git /repo/ "$work/repo/"
   if ! (cd "$work/repo" && patch -p1 -s < "$d/patch.diff" >/dev/null 2>&1); then echo "SELFTEST $name: patch does not apply: BROKEN"; rm -rf "$work"; return 1; fi
